@@ -163,6 +163,33 @@ def dropped_results(P, fn, names, xg):
                     tgt = (j, x["n"])
                     break
             if tgt is not None and tgt[1] not in xg.escaped:
-                if not _live_after(fn, xg, b, tgt[0], tgt[1]):
+                if not _live_after(fn, xg, b, tgt[0], tgt[1]) and not _result_used_elsewhere(fn, xg, e, b, tgt[0]):
                     out.append((b, i, e, "stored into `%s`, which is overwritten or never read afterwards" % tgt[1]))
     return out
+
+
+def _result_used_elsewhere(fn, xg, call, b0, j0):
+    """After normalisation a temporary that only carried a call result is
+    replaced by a reference to that result (normalise.inline_new_locals): the
+    result is consumed where that reference is consumed."""
+    cid = call["id"]
+    for blk in fn.blocks.values():
+        if blk.term is not None and any(c.get("id") == cid for c in calls_in(blk.term.get("cond"))):
+            # the call event itself sits in the block of its own condition; only a reference from another block counts
+            if not any(x is call for x in blk.ev):
+                return True
+        for j, x in enumerate(blk.ev):
+            if x is call or (blk.id == b0 and j == j0):
+                continue
+            if x["e"] == "asg" and any(c.get("id") == cid for c in calls_in(x["rhs"])):
+                l = strip_casts(x["lhs"])
+                if not (isinstance(l, dict) and l.get("k") == "var" and l.get("kind") in ("local", "param")):
+                    return True
+                if l["n"] in xg.escaped or _live_after(fn, xg, blk.id, j, l["n"]):
+                    return True
+            elif x["e"] in ("ret", "void") and any(c.get("id") == cid for c in calls_in(x.get("x"))):
+                if x["e"] == "ret":
+                    return True
+            elif x["e"] == "call" and any(c.get("id") == cid for a in x.get("a", []) for c in calls_in(a)):
+                return True
+    return False
